@@ -5,6 +5,14 @@ PY_SUBSET = ('Python semantics of the executed subset as encoded by pyvc.symexec
              'sequences as len/at theories, path-by-path execution, loops cut at invariants)')
 
 PROPS = {
+    'C16': {
+        'level': 'proof',
+        'proof': [('contracts.modeldb', None)],
+        'bounded': [],
+        'assumptions': [PY_SUBSET],
+        'explanation': 'PENDING-marker protocol of transaction/snapshot proved as effect traces for every outcome; '
+                       'crash points of the store operations enumerated natively (bounded)',
+    },
     'C01': {
         'level': 'proof',
         'proof': [('contracts.advan', None)],
